@@ -117,26 +117,46 @@ def r04_a(ctx):
     else:
         lp = loops[0]
         var = lp.target.id if isinstance(lp.target, ast.Name) else None
-        ys = [n for n in ast.walk(lp) if isinstance(n, ast.Yield)]
-        # the only drop condition: isinstance(x, str) and x.isspace() (and not preserve_whitespace)
-        conds = [n for n in ast.walk(lp) if isinstance(n, ast.If) and any(isinstance(y, ast.Yield) for s in n.body for y in ast.walk(s))]
-        ws = [n for n in ast.walk(lp) if isinstance(n, ast.BoolOp) and isinstance(n.op, ast.And)
-              and any(norm(v) == 'isinstance(%s, str)' % var for v in n.values) and any(norm(v) == '%s.isspace()' % var for v in n.values)]
-        ok = len(ys) == 1 and len(conds) == 1 and len(ws) == 1 and norm(ys[0].value) == var
-        drop_ok = False
-        if ok:
-            t = norm(conds[0].test)
-            wsname = None
-            for n in ast.walk(lp):
-                if isinstance(n, ast.Assign) and n.value is ws[0] and isinstance(n.targets[0], ast.Name):
-                    wsname = n.targets[0].id
-            drop_ok = wsname is not None and t in ('not %s or self.preserve_whitespace' % wsname,
-                                                   'self.preserve_whitespace or not %s' % wsname, 'not %s' % wsname)
-        rr.ob(ok and drop_ok, {'view': 'contents', 'drop_condition': norm(conds[0].test) if conds else None})
-        if not (ok and drop_ok):
-            rr.fail(Finding('R04.a', 'data', fd.qual, conds[0].test if conds else 'contents filter',
+        # decided by truth table over the atoms of the loop body (however the condition is spelled): an element is
+        # yielded, once and as itself, exactly when  not (isinstance(x, str) and x.isspace()) or self.preserve_whitespace
+        from . import boolpath
+        problem = None
+        try:
+            atoms, table = boolpath.yield_table(lp.body)
+        except boolpath.NotStructured as e:
+            raise AnalysisError('TexExpr.contents: loop body not decidable (%s)' % e)
+        # the yielded element: the loop variable itself (possibly rebound to its text), or a local computed from it
+        ynames = {norm(y) for ys in table.values() for y in ys}
+        elem = var
+        if len(ynames) == 1 and next(iter(ynames)) != var:
+            cand = next(iter(ynames))
+            defs = [n for n in ast.walk(lp) if isinstance(n, ast.Assign) and len(n.targets) == 1 and norm(n.targets[0]) == cand]
+            if len(defs) == 1 and all(x.id == var or (repo.resolve(data, x.id) or ('',))[0] == 'class' or x.id == 'isinstance'
+                                      for x in ast.walk(defs[0].value) if isinstance(x, ast.Name)) \
+                    and any(isinstance(x, ast.Name) and x.id == var for x in ast.walk(defs[0].value)):
+                elem = cand
+        P, Q, R = 'isinstance(%s, str)' % elem, '%s.isspace()' % elem, 'self.preserve_whitespace'
+        var = elem
+        if P not in atoms or Q not in atoms:
+            problem = 'no whitespace-only test on the element'
+        else:
+            for bits, ys in table.items():
+                val = dict(zip(atoms, bits))
+                want = (not (val[P] and val[Q])) or val.get(R, False)
+                got = len(ys)
+                if got != (1 if want else 0):
+                    problem = 'with %s the element is %s' % (
+                        ', '.join('%s=%s' % (a, val[a]) for a in (P, Q, R) if a in val),
+                        'dropped' if got == 0 else 'yielded %d times' % got)
+                    break
+                if ys and norm(ys[0]) != var:
+                    problem = 'yields %s instead of the element' % norm(ys[0])
+                    break
+        rr.ob(problem is None, {'view': 'contents', 'atoms': atoms, 'yield_condition': 'not (%s and %s) or %s' % (P, Q, R)})
+        if problem is not None:
+            rr.fail(Finding('R04.a', 'data', fd.qual, 'contents filter: %s' % problem,
                             'the contents view drops something other than whitespace-only text (or keeps it): it is no '
-                            'longer the complete content list without blank text', line=fd.node.lineno))
+                            'longer the complete content list without blank text (%s)' % problem, line=fd.node.lineno))
     # whitespace is dropped for every node the parser builds: the keep-whitespace flag is set only by the
     # constructor from its (default False) parameter, and no parser call turns it on
     flag_writes = []
@@ -393,7 +413,9 @@ def r03_b(ctx):
     ps = fd.params()
     name_p = ps[1] if len(ps) > 1 else None
     kw = fd.node.args.kwarg.arg if fd.node.args.kwarg else None
-    loops = [n for n in ast.walk(fd.node) if isinstance(n, ast.For)]
+    from .model import loop_form
+    fa_node = loop_form(fd.node)       # `return (d for d in ... if ...)` is read as the loop it abbreviates
+    loops = [n for n in ast.walk(fa_node) if isinstance(n, ast.For)]
     ok = len(loops) == 1 and 'descendants' in norm(loops[0].iter) and norm(loops[0].iter).startswith('self.')
     if ok:
         var = norm(loops[0].target)
@@ -410,7 +432,7 @@ def r03_b(ctx):
                 isinstance(x, ast.UnaryOp) and isinstance(x.op, ast.Not) for x in ast.walk(p.test))
     # nothing may cut the enumeration short: no return/raise outside the loop, no break/continue/return inside it
     if ok:
-        early = [n for s_ in strip_doc(fd.node.body) if s_ is not loops[0] for n in ast.walk(s_)
+        early = [n for s_ in strip_doc(fa_node.body) if s_ is not loops[0] for n in ast.walk(s_)
                  if isinstance(n, (ast.Return, ast.Raise, ast.Yield, ast.YieldFrom))]
         early += [n for n in ast.walk(loops[0]) if isinstance(n, (ast.Break, ast.Continue, ast.Return))]
         if early:
@@ -454,6 +476,39 @@ def r03_b(ctx):
     if not ok:
         rr.fail(Finding('R03.b', 'data', fd.qual, rets[0] if rets else '__getattr__', 'attribute access on a node is not '
                         'find() of that name', line=fd.node.lineno))
+    return rr
+
+
+def r03_d(ctx):
+    """attribute access is the search only for names that are not attributes of the node class"""
+    repo = ctx.repo
+    node = repo.need_cls('data.TexNode')
+    rr = RuleResult('R03.d', 'attribute access on a node (soup.name) reaches the search fallback `__getattr__` only when '
+                    'normal attribute look-up fails: every attribute of the node class whose name could be a command '
+                    'name (letters only) answers with itself instead of find(name)', floor=1)
+    if '__getattr__' not in node.methods:
+        raise AnalysisError('TexNode.__getattr__ vanished')
+    names = {}
+    for c in node.mro if getattr(node, 'mro', None) else [node]:
+        if not hasattr(c, 'methods'):
+            continue
+        for nm, fds in c.methods.items():
+            names.setdefault(nm, fds[-1].node)
+            for fd in fds:
+                for n in ast.walk(fd.node):
+                    if isinstance(n, ast.Attribute) and isinstance(n.ctx, ast.Store) and isinstance(n.value, ast.Name) \
+                            and n.value.id == 'self':
+                        names.setdefault(n.attr, n)
+        for nm, v in c.attrs.items():
+            names.setdefault(nm, v)
+    rr.ob(True, {'attribute_fallback': 'TexNode.__getattr__', 'class_attributes': len(names)})
+    for nm in sorted(names):
+        if not (nm.isascii() and nm.isalpha()):
+            continue
+        rr.ob(False, {'attribute': nm, 'shadows_command': '\\' + nm})
+        rr.fail(Finding('R03.d', 'data', 'TexNode', 'attribute %s' % nm,
+                        'TexNode has an attribute named %s: for a document that uses the command \\%s, soup.%s is that '
+                        'attribute, not soup.find(%r)' % (nm, nm, nm, nm), line=getattr(names[nm], 'lineno', 0)))
     return rr
 
 
@@ -662,6 +717,11 @@ def r05_a(ctx):
                         if isinstance(a, ast.Assign) and norm(a.targets[0]) == var and _identity_search(a.value):
                             excused = True
                 p = getattr(p, '_parent', None)
+            # ... or the site is the `else` of an identity loop over the list (taken only when no identity hit broke out)
+            for lp in idloops:
+                if isinstance(lp, ast.For) and any(x is n for s_ in lp.orelse for x in ast.walk(s_)) and any(
+                        isinstance(x, ast.Break) for x in ast.walk(lp)):
+                    excused = True
             # ... or an identity loop over the list that returns on a hit stands before it in the function body
             for lp in idloops:
                 if isinstance(lp, ast.For) and lp in fd.node.body and lp.end_lineno < n.lineno and any(
@@ -789,12 +849,27 @@ def r05_c(ctx):
                 if isinstance(c, ast.Call) and isinstance(c.func, ast.Attribute) and c.func.attr == 'insert' and _is_content_list(c.func.value):
                     site = c
                     ok = se.ev(c.args[0]) == Aff.sym(ip) + Aff.sym(j)
+                    # ... on every iteration: an item that is skipped leaves a hole in base + j, so the later items land
+                    # one slot too far
+                    stmt = c
+                    while getattr(stmt, '_parent', None) is not None and stmt._parent is not lp:
+                        stmt = stmt._parent
+                    skips = [x for x in ast.walk(lp) if isinstance(x, (ast.Continue, ast.Break, ast.Return))]
+                    if ok and (stmt not in lp.body or skips):
+                        ok = False
+                        site = skips[0] if skips else c
+                        rr.fail(Finding('R05.c', 'data', fd.qual, _stmt_with(fd.node, site) if skips else c,
+                                        'the multi-item insert does not store every item (an iteration can be skipped or the '
+                                        'store is conditional) while later items still go to base + position-in-the-'
+                                        'arguments: they land beyond the requested index', line=site.lineno))
+                        rr.ob(False, {'insert': 'conditional store in the enumerate loop'})
+                        skipped_reported = True
     for n in ast.walk(fd.node):
         if isinstance(n, ast.Assign) and isinstance(n.targets[0], ast.Subscript) and isinstance(n.targets[0].slice, ast.Slice) \
                 and _is_content_list(n.targets[0].value) and norm(n.targets[0].slice.lower) == ip and norm(n.targets[0].slice.upper) == ip:
             ok = True
     rr.ob(ok, {'insert': norm(site)[:70] if site is not fd.node else None})
-    if not ok:
+    if not ok and not locals().get('skipped_reported'):
         rr.fail(Finding('R05.c', 'data', fd.qual, site if site is not fd.node else 'multi-item insert', 'items inserted '
                         'together are not placed at consecutive indices in argument order', line=fd.node.lineno))
     fd = _m(texexpr, 'append')
@@ -991,6 +1066,60 @@ def r15_c(ctx):
                 return a if a == b else 'unknown'
             return 'unknown'
 
+        def helper_of(call):
+            hname = call.func.attr if isinstance(call.func, ast.Attribute) else (call.func.id if isinstance(call.func, ast.Name) else None)
+            if hname is None:
+                return None
+            if isinstance(call.func, ast.Attribute):
+                recv = norm(call.func.value)
+                cls_ = fd.cls if recv in ('self', 'cls') else (data.classes.get(recv) if recv in data.classes else None)
+                if cls_ is None:
+                    return None
+                o, kd, h = cls_.lookup(hname)
+                return h if kd in ('method', 'staticmethod', 'classmethod') else None
+            return data.functions.get(hname)
+
+        def helper_kinds(h, k, depth_=0):
+            """kinds a per-element helper returns for an argument of kind k (If/return-structured body)"""
+            params = [p_ for p_ in h.params() if p_ not in ('self', 'cls')]
+            if len(params) != 1 or depth_ > 2:
+                return {'unknown'}
+            x = params[0]
+            out = set()
+
+            def go(stmts, kind):
+                for s_ in stmts:
+                    if isinstance(s_, ast.If):
+                        tv = test_value(s_.test, {x: frozenset({kind})})
+                        if tv is True:
+                            if go(s_.body, kind):
+                                return True
+                        elif tv is False:
+                            if go(s_.orelse, kind):
+                                return True
+                        else:
+                            a_ = go(list(s_.body), kind)
+                            b_ = go(list(s_.orelse), kind)
+                            if a_ and b_:
+                                return True
+                    elif isinstance(s_, ast.Return):
+                        out.add(elem_kind(s_.value, x, kind) if s_.value is not None else 'unknown')
+                        return True
+                    elif isinstance(s_, ast.Assign) and len(s_.targets) == 1 and isinstance(s_.targets[0], ast.Name) \
+                            and s_.targets[0].id == x:
+                        kind = elem_kind(s_.value, x, kind)
+                    elif isinstance(s_, ast.Expr) and isinstance(s_.value, ast.Constant):
+                        continue
+                    elif isinstance(s_, ast.Raise):
+                        return True
+                    else:
+                        out.add('unknown')
+                        return True
+                return False
+            if not go(strip_doc(h.node.body), k):
+                out.add('unknown')      # falls off the end: returns None
+            return out
+
         def mapped_kinds(call, env):
             """kinds of the elements of  helper(<var-arg>)  where helper returns  [E for x in <its parameter>]"""
             names = [a_ for a_ in call.args if isinstance(a_, ast.Name) and a_.id in env]
@@ -1081,6 +1210,13 @@ def r15_c(ctx):
                                 e[v] = frozenset({'TexExpr'})
                             elif isinstance(val, ast.Call) and norm(val.func) == 'TexNode':
                                 e[v] = frozenset({'TexNode'})
+                            elif isinstance(val, ast.Call) and len(val.args) == 1 and not val.keywords and isinstance(val.args[0], ast.Name) \
+                                    and val.args[0].id in e and helper_of(val) is not None:
+                                e[v] = frozenset(k2 for k in e[val.args[0].id] for k2 in helper_kinds(helper_of(val), k))
+                            elif isinstance(val, ast.IfExp) or isinstance(val, ast.Name):
+                                e[v] = frozenset(elem_kind(val, v, k) for k in e[v]) if all(
+                                    x.id in (v, 'isinstance') or (repo.resolve(data, x.id) or ('',))[0] == 'class'
+                                    for x in ast.walk(val) if isinstance(x, ast.Name)) else frozenset({'unknown'})
                             else:
                                 e[v] = frozenset({'unknown'})
                         else:
